@@ -58,6 +58,17 @@ def random_system(rng, d, kind, probe=None, tshift=0.0, n_lind=None,
     nu = [float(rng.uniform(0.5, 3.0)) for _ in range(nl)]
     a0 = [gen.cplx(rng, (d, d), 0.6) for _ in range(nl)]
     a1 = [gen.cplx(rng, (d, d), 0.3) for _ in range(nl)]
+    if kind == "slow":
+        # a slowly evolving system resolved with a fine time step: a
+        # detuning-type (diagonal) Hamiltonian whose half-step propagator is
+        # within ~1e-5 of the identity - close to it, not equal to it
+        h0 = np.diag(rng.uniform(-1.0, 1.0, size=d)).astype(complex) \
+            * (1.6e-5 / switch_on)
+
+        def liou(t):
+            return gen.lindblad_super(h0, [], [])
+        return dict(oq=oqupy.System(h0), liou=liou, td=False, d=d, h0=h0,
+                    nl=0, g0=[], a0=[])
     if kind == "const":
         def liou(t):
             return gen.lindblad_super(h0, g0, a0)
